@@ -285,13 +285,16 @@ fn frombin_block(start: i64, count: u64) -> BlockOut {
     run_chunks(items, frombin_chunk)
 }
 
-fn year_codes(y: i64, _n: u64, viol: &mut Vec<(String, String)>) -> u64 {
+fn year_codes(y: i64, full: u64, viol: &mut Vec<(String, String)>) -> u64 {
+    let full = full != 0;
     let y = y as i16;
     let mut h = FNV_OFFSET;
     let mut idx: u64 = 0;
     let mut bad = |kind: &str, detail: String| { if viol.len() < 4 { viol.push((kind.to_string(), detail)); } };
     for m in 1u8..=12 {
-        for d in 1u8..=DPM[m as usize] as u8 {
+        let n = DPM[m as usize] as u8;
+        let days: Vec<u8> = if full { (1..=n).collect() } else { vec![1, n] };
+        for d in days {
             let od = Date::from_ymd_opt(y, m, d).expect("valid date");
             let fs = od.game_fmt().to_string();
             h = mix(h, code_bytes(fs.as_bytes()));
@@ -317,7 +320,7 @@ fn year_codes(y: i64, _n: u64, viol: &mut Vec<(String, String)>) -> u64 {
             let back = Date::from_binary(bin);
             h = mix(h, code_date(back));
             if y >= -5000 && back != Some(od) { bad("bin-roundtrip", format!("Date {} -> {}", fs, bin)); }
-            for k in 0u8..24 {
+            for k in 0u8..(if full { 24 } else { 0 }) {
                 let dh = DateHour::from_ymdh_opt(y, m, d, k + 1).expect("valid datehour");
                 let b = dh.to_binary();
                 let back = DateHour::from_binary(b);
@@ -345,8 +348,71 @@ fn year_codes(y: i64, _n: u64, viol: &mut Vec<(String, String)>) -> u64 {
     h
 }
 
-fn ymd_block(year: i64, count: u64) -> BlockOut {
-    run_chunks((0..count as i64).map(|k| (year + k, 1)).collect(), year_codes)
+fn ymd_block(full: bool, year: i64, count: u64) -> BlockOut {
+    run_chunks((0..count as i64).map(|k| (year + k, full as u64)).collect(), year_codes)
+}
+
+/// fold of the four text parsers over every one-byte corruption of `base` (+ the parser oracles)
+fn shape_block(base: &[u8], case: &str, obs: &mut Obs) -> u64 {
+    let alpha: [u8; 12] = [48, 49, 50, 57, 46, 47, 58, 45, 43, 32, 0, 255];
+    let mut h = FNV_OFFSET;
+    let mut local = Obs::default();
+    for pos in 0..base.len() {
+        for v in 0..=255u8 {
+            let mut t = base.to_vec();
+            t[pos] = v;
+            let r = Date::parse(&t).ok();
+            h = mix(h, code_date(r));
+            let both = t.len() >= 5 && t.len() <= 12 && (t[0] == b'-' || t[0].is_ascii_digit());
+            let c = format!("{} [dparse {}]", case, hex(&t));
+            typed_oracle(Ty::Date, &t, r.map(|d| (d.year() as i64, d.month() as u32, d.day() as u32, 0)), both, &c, &mut local);
+        }
+        for &v in &alpha {
+            let mut t = base.to_vec();
+            t[pos] = v;
+            let (a, b, c) = (DateHour::parse(&t).ok(), UniformDate::parse(&t).ok(), RawDate::parse(&t).ok());
+            h = mix(mix(mix(h, code_dh(a)), code_ud(b)), code_raw(c));
+            let cs = format!("{} [parse {}]", case, hex(&t));
+            typed_oracle(Ty::DateHour, &t, a.map(|d| (d.year() as i64, d.month() as u32, d.day() as u32, d.hour() as u32)), true, &cs, &mut local);
+            typed_oracle(Ty::Uniform, &t, b.map(|d| (d.year() as i64, d.month() as u32, d.day() as u32, 0)), true, &cs, &mut local);
+            typed_oracle(Ty::Raw, &t, c.map(|d| (d.year() as i64, d.month() as u32, d.day() as u32, d.hour() as u32)), true, &cs, &mut local);
+        }
+    }
+    for v in local.violations.into_iter().take(4) { obs.violation(&v.kind, &v.case, &v.detail); }
+    h
+}
+
+fn splitmix(s: &mut u64) -> u64 {
+    *s = s.wrapping_add(0x9E3779B97F4A7C15);
+    let mut z = *s;
+    z = (z ^ (z >> 30)).wrapping_mul(0xBF58476D1CE4E5B9);
+    z = (z ^ (z >> 27)).wrapping_mul(0x94D049BB133111EB);
+    z ^ (z >> 31)
+}
+fn digit_word(r: u64) -> u64 {
+    let mut w = 0u64;
+    for i in 0..8 { w |= (48 + ((r >> (8 * i)) & 0xFF) % 10) << (8 * i); }
+    w
+}
+fn set_byte(w: u64, pos: u64, v: u64) -> u64 { (w & !(0xFFu64 << (8 * pos))) | (v << (8 * pos)) }
+
+fn fdp_block(seed: u64, n: u64, case: &str, obs: &mut Obs) -> u64 {
+    let mut st = seed;
+    let mut h = FNV_OFFSET;
+    let mut bad = 0;
+    for _ in 0..n {
+        let (r0, r1, r2) = (splitmix(&mut st), splitmix(&mut st), splitmix(&mut st));
+        let w = match r0 % 4 {
+            0 => r1,
+            1 => digit_word(r1),
+            2 => set_byte(digit_word(r1), r2 % 8, (r2 >> 8) & 0xFF),
+            _ => set_byte(digit_word(r1), r2 % 8, if (r2 >> 8) % 2 == 0 { 0x2f } else { 0x3a }),
+        };
+        let r = jomini::verif_hooks::fast_digit_parse(w);
+        if r != fdp_reference(w) && bad < 4 { bad += 1; obs.violation("fast-digit-parse", case, &format!("word {} impl {:?}", w, r)); }
+        h = mix(h, match r { Some(v) => v.wrapping_add(1), None => 0 });
+    }
+    h
 }
 
 // ---------------------------------------------------------------------------------------
@@ -653,11 +719,23 @@ pub fn exec(w: &[&str], obs: &mut Obs) -> Option<String> {
             obs.count("frombin-block");
             Some(format!("ok {}", out.hash))
         }
-        ["ymd-block", y, n] => {
+        ["shape-block", h] => {
+            let s = unhex(h)?;
+            let r = shape_block(&s, &case(), obs);
+            obs.count("shape-block");
+            Some(format!("ok {}", r))
+        }
+        ["fdp-block", seed, n] => {
+            let r = fdp_block(seed.parse().ok()?, n.parse().ok()?, &case(), obs);
+            obs.count("fdp-block");
+            Some(format!("ok {}", r))
+        }
+        ["ymd-block", mode, y, n] => {
             let y: i64 = y.parse().ok()?;
             let n: u64 = n.parse().ok()?;
+            let full = match *mode { "full" => true, "ends" => false, _ => return None };
             if y < i16::MIN as i64 || y + n as i64 > i16::MAX as i64 + 1 { return None; }
-            let out = ymd_block(y, n);
+            let out = ymd_block(full, y, n);
             for (k, d) in out.violations { obs.violation(&k, &case(), &d); }
             obs.count("ymd-block");
             Some(format!("ok {}", out.hash))
@@ -691,10 +769,11 @@ pub fn gen(g: &mut Gen) {
     let ops4 = ["dparse", "dhparse", "udparse", "rawparse"];
 
     // 1. the four fast-path shapes, every one-byte corruption at every position ----------
-    let nshape = g.budget(5, 60);
-    let mut shape_dates: Vec<(i32, u32, u32)> = vec![(1444, 11, 11), (1000, 1, 1), (9999, 12, 31), (2200, 2, 28), (1, 9, 9)];
+    // (block folds: one line per base string; a couple of dates also as individual lines)
+    let nshape = g.budget(60, 4000);
+    let mut shape_dates: Vec<(i32, u32, u32)> = vec![(1444, 11, 11), (1000, 1, 1), (9999, 12, 31), (2200, 2, 28), (1, 9, 9), (0, 1, 1)];
     for _ in 0..nshape { let (_, m, d) = rand_date(g); shape_dates.push((g.rng.range(0, 9999) as i32, m, d)); }
-    for (y, m, d) in &shape_dates {
+    for (k, (y, m, d)) in shape_dates.iter().enumerate() {
         let shapes = [
             format!("{:04}.{:02}.{:02}", y, m, d),
             format!("{:04}.{}.{:02}", y, m % 10, d),
@@ -703,16 +782,17 @@ pub fn gen(g: &mut Gen) {
         ];
         for s in shapes.iter() {
             let base = s.as_bytes().to_vec();
+            g.emit(format!("shape-block {}", hex(&base)));
             g.emit(format!("dparse {}", hex(&base)));
+            if k >= 2 { continue; }
             for pos in 0..base.len() {
-                for v in 0..=255u8 {
+                for v in (0..=255u8).step_by(if k == 0 { 1 } else { 5 }) {
                     if v == base[pos] { continue; }
                     let mut t = base.clone();
                     t[pos] = v;
                     g.emit(format!("dparse {}", hex(&t)));
                 }
-                // reduced alphabet for the other parsers (they share the component parser)
-                for &v in b"0129./:-+ \x00\xff" {
+                for &v in b"09./-" {
                     let mut t = base.clone();
                     t[pos] = v;
                     for op in &ops4[1..] { g.emit(format!("{} {}", op, hex(&t))); }
@@ -729,9 +809,13 @@ pub fn gen(g: &mut Gen) {
             }
         }
     }
+    // the same for texts that are not of a fast shape (negative, short and long years, hours)
+    for t in ["-17.1.1", "1.1.1", "-2500.12.31", "32767.10.5", "-32768.1.01", "1936.1.1.24", "1936.01.01.05", "12.3.4.5", "43808760", "-43800000"] {
+        g.emit(format!("shape-block {}", hex(t.as_bytes())));
+    }
     g.count("fast-path-shapes-x-corruptions");
     // all digit strings of the fast shapes with the month/day fields swept (valid and invalid)
-    for y in [0, 1, 999, 1000, 1444, 9999] {
+    for y in (if g.thorough { vec![0, 1, 999, 1000, 1444, 9999] } else { vec![0, 1444] }) {
         for m in 0..=19u32 {
             for d in (0..=39u32).chain([99]) {
                 for s in [format!("{:04}.{:02}.{:02}", y, m, d), format!("{:04}.{}.{:02}", y, m, d), format!("{:04}.{:02}.{}", y, m, d), format!("{:04}.{}.{}", y, m, d)] {
@@ -744,9 +828,9 @@ pub fn gen(g: &mut Gen) {
 
     // 2. years × first/last day of each month ------------------------------------------
     let mut years: Vec<i32> = interesting_years();
-    let ny = g.budget(150, 3000);
+    let ny = g.budget(40, 1500);
     for _ in 0..ny { years.push(g.rng.range(0, 65535) as i32 - 32768); }
-    for y in (-120..=120).step_by(if g.thorough { 1 } else { 7 }) { years.push(y); }
+    for y in (-120..=120).step_by(if g.thorough { 1 } else { 17 }) { years.push(y); }
     for &y in &years {
         for m in 1..=12u32 {
             for d in [1, DPM[m as usize]] {
@@ -778,13 +862,23 @@ pub fn gen(g: &mut Gen) {
         g.emit(format!("iso {} {} {} {}", y, m, d, h));
         for f in ["short", "wide", "iso"] { g.emit(format!("rawfmt {} {} {} {} {}", f, y, m, d, h)); }
     } }
-    // block folds: every day of the year × every codec
+    // block folds: every codec over the days of whole years
     if g.thorough {
+        // all 65536 years x month ends
         let mut y = -32768i64;
-        while y < 32768 { g.emit(format!("ymd-block {} 64", y)); y += 64; }
+        while y < 32768 { g.emit(format!("ymd-block ends {} 256", y)); y += 256; }
+        // every day (and all 24 hours) of the years where digit counts / signs / the binary epoch change
+        for (a, b) in [(-32768i64, -32760), (-10003, -9997), (-5004, -4996), (-1002, -998), (-102, 102), (990, 2300), (9990, 10010), (32760, 32767)] {
+            let mut y = a;
+            while y <= b { let n = (b - y + 1).min(16); g.emit(format!("ymd-block full {} {}", y, n)); y += n; }
+        }
+        let mut y = -32768i64 + 29;
+        while y < 32768 { g.emit(format!("ymd-block full {} 1", y)); y += 64; }
     } else {
-        for y in interesting_years() { g.emit(format!("ymd-block {} 1", y)); }
-        for _ in 0..24 { let y = g.rng.range(0, 65535 - 4) as i64 - 32768; g.emit(format!("ymd-block {} 4", y)); }
+        for y in interesting_years() { g.emit(format!("ymd-block full {} 1", y)); }
+        let mut y = -32768i64;
+        while y < 32768 { g.emit(format!("ymd-block ends {} 16", y)); y += 1024; }
+        for _ in 0..12 { let y = g.rng.range(0, 65535 - 4) as i64 - 32768; g.emit(format!("ymd-block full {} 2", y)); }
     }
     g.count("ymd-blocks");
 
@@ -797,7 +891,7 @@ pub fn gen(g: &mut Gen) {
     }
     // start of every month of a year, ± one hour
     for k in [0i64, 31, 59, 90, 120, 151, 181, 212, 243, 273, 304, 334, 364] { for delta in [-1i64, 0, 1] { bins.push((1444 + 5000) * 8760 + k * 24 + delta); } }
-    let nb = g.budget(3000, 200_000);
+    let nb = g.budget(1500, 15_000);
     for _ in 0..nb {
         let v = match g.rng.below(3) {
             0 => (g.rng.next() as u32) as i32 as i64,
@@ -844,7 +938,7 @@ pub fn gen(g: &mut Gen) {
         }
     }
     g.count("invalid-day-month-hour");
-    let nt = g.budget(60, 1500);
+    let nt = g.budget(40, 300);
     for i in 0..nt {
         let (y, m, d) = rand_date(g);
         let h = g.rng.range(1, 24);
@@ -872,7 +966,7 @@ pub fn gen(g: &mut Gen) {
     g.count("corner-strings");
 
     // 5. random strings over the date alphabet -------------------------------------------
-    let nr = g.budget(8000, 600_000);
+    let nr = g.budget(8000, 60_000);
     for _ in 0..nr {
         let len = g.rng.range(0, 14);
         let alpha: &[u8] = if g.rng.chance(1, 5) { b"0123456789.-+ x/:\x00\xff" } else { b"0112345678999....-" };
@@ -882,7 +976,7 @@ pub fn gen(g: &mut Gen) {
         if g.rng.chance(1, 8) { g.emit(format!("i64t {}", hex(&s))); }
     }
     // random well-formed Y.M.D[.H] with unconstrained field widths and values
-    let nw = g.budget(6000, 400_000);
+    let nw = g.budget(6000, 60_000);
     for _ in 0..nw {
         let y = match g.rng.below(4) { 0 => g.rng.range(0, 70000) as i64 - 35000, 1 => g.rng.range(0, 9999) as i64, _ => g.rng.range(0, 3000) as i64 - 500 };
         let wy = *g.rng.pick(&[0usize, 0, 0, 4, 5, 6]);
@@ -898,7 +992,7 @@ pub fn gen(g: &mut Gen) {
     g.count("random-strings");
 
     // 6. arithmetic ----------------------------------------------------------------------
-    let na = g.budget(4000, 300_000);
+    let na = g.budget(4000, 40_000);
     for i in 0..na {
         let (y, m, d) = rand_date(g);
         let n: i64 = match g.rng.below(8) {
@@ -939,7 +1033,7 @@ pub fn gen(g: &mut Gen) {
     g.count("arithmetic");
 
     // 7. fast_digit_parse -----------------------------------------------------------------
-    let nf = g.budget(3000, 1_000_000);
+    let nf = g.budget(1500, 10_000);
     for _ in 0..nf {
         let mut b = [0u8; 8];
         for x in b.iter_mut() { *x = b'0' + g.rng.below(10) as u8; }
@@ -952,6 +1046,8 @@ pub fn gen(g: &mut Gen) {
     }
     for pos in 0..8 { for v in 0..=255u8 { let mut b = *b"14441111"; b[pos] = v; g.emit(format!("fdp {}", u64::from_le_bytes(b))); } }
     for v in [0u64, u64::MAX, 0x3030303030303030, 0x3939393939393939, 0x3a30303030303030, 0x2f2f2f2f2f2f2f2f] { g.emit(format!("fdp {}", v)); }
+    let (nblk, per) = if g.thorough { (48, 1_000_000) } else { (2, 100_000) };
+    for k in 0..nblk { let seed = g.rng.next() % 1_000_000_007 + k; g.emit(format!("fdp-block {} {}", seed, per)); }
     g.count("fast-digit-parse");
 }
 
